@@ -583,6 +583,12 @@ func (g *Gen) KeySwitch() []int {
 		g.AddOp(Op{Cell: "mu", Val: UVal{Kind: "A", ID: id, A: int64(g.r.Intn(4))}}),
 		g.AddOp(Op{Cell: "mu", Val: UVal{Kind: "B", ID: id, B: words[g.r.Intn(len(words))]}}),
 		g.AddOp(Op{Cell: "mu", Val: UVal{Kind: "B", ID: id, B: "changed"}}),
+		// member switches that are diffed field by field (no key / same key),
+		// from the member with fewer selected fields to the one with more
+		g.AddOp(Op{Cell: "pu", Val: UVal{Kind: "A", ID: id % 3, A: 1}}),
+		g.AddOp(Op{Cell: "pu", Val: UVal{Kind: "B", ID: id % 3, B: "sw"}}),
+		g.AddOp(Op{Cell: "ku", Val: UVal{Kind: "A", ID: id, A: 2}}),
+		g.AddOp(Op{Cell: "ku", Val: UVal{Kind: "B", ID: id, B: "sw"}}),
 	}
 }
 
@@ -672,11 +678,17 @@ func (g *Gen) GenQuery(tag string, o QueryOpts) (string, []string) {
 			if r.Intn(2) == 0 {
 				return fld{"ku { __typename ... on KA { id a } ... on KB { id b } }", []string{"ku"}}
 			}
+			if r.Intn(2) == 0 { // members with different numbers of selected fields
+				return fld{"ku { ... on KA { a } ... on KB { id b __typename } }", []string{"ku"}}
+			}
 			return fld{"ku { ... on KA { a } ... on KB { b } }", []string{"ku"}}
 		},
 		func() fld {
 			if r.Intn(2) == 0 {
 				return fld{"pu { __typename ... on PA { a same } ... on PB { b same } }", []string{"pu"}}
+			}
+			if r.Intn(2) == 0 { // members with different numbers of selected fields
+				return fld{"pu { ... on PA { a } ... on PB { b same __typename } }", []string{"pu"}}
 			}
 			return fld{"pu { ... on PA { a } ... on PB { b } }", []string{"pu"}}
 		},
@@ -705,8 +717,9 @@ func (g *Gen) GenQuery(tag string, o QueryOpts) (string, []string) {
 		cells = append(cells, f.cells...)
 	}
 	if o.Cost {
-		parts = append(parts, "ci: items { id cost }", "cp: pick { id cost }", "cm: mu { ... on PA { a same } ... on KB { id b } }")
-		cells = append(cells, "items", "pick", "mu")
+		parts = append(parts, "ci: items { id cost }", "cp: pick { id cost }", "cm: mu { ... on PA { a same } ... on KB { id b } }",
+			"cu: pu { ... on PA { a } ... on PB { b same __typename } }", "ck: ku { ... on KA { a } ... on KB { id b __typename } }")
+		cells = append(cells, "items", "pick", "mu", "pu", "ku")
 		cells = append(cells, itemCells()...)
 	}
 	if o.Timed {
